@@ -19,6 +19,10 @@ import (
 type TCPExec struct {
 	C   *respc.Client
 	Srv *procs.Server
+	// Hung is set when a command got no reply within the client's timeout although the server process is alive;
+	// HungDump is the server's goroutine dump taken at that moment
+	Hung     bool
+	HungDump string
 }
 
 // NewTCPExec starts a server in dir and connects to it.
@@ -50,15 +54,32 @@ func (t *TCPExec) Close() {
 
 // Exec sends one command and reads its reply.
 func (t *TCPExec) Exec(cmd [][]byte) inproc.Result {
+	if t.Hung {
+		return inproc.Result{Panic: "connection error: the server stopped answering earlier"}
+	}
 	v, err := t.C.DoB(cmd)
 	if err != nil {
+		if ne, ok := err.(interface{ Timeout() bool }); ok && ne.Timeout() && !t.Srv.Exited() {
+			t.Hung = true
+			t.HungDump = inproc.TopFrames(t.Srv.Dump(), 12)
+		}
 		return inproc.Result{Panic: "connection error: " + err.Error() + "\n" + t.Srv.CrashLine()}
 	}
 	return inproc.Result{V: v, Raw: v.Encode()}
 }
 
 // Held reports wedged stripes (the count only is available over TCP).
+func (t *TCPExec) noteTimeout(err error) {
+	if ne, ok := err.(interface{ Timeout() bool }); ok && ne.Timeout() && !t.Srv.Exited() && !t.Hung {
+		t.Hung = true
+		t.HungDump = inproc.TopFrames(t.Srv.Dump(), 12)
+	}
+}
+
 func (t *TCPExec) Held() []int {
+	if t.Hung {
+		return nil
+	}
 	for try := 0; try < 100; try++ {
 		v, err := t.C.Do("verif.stripes")
 		if err != nil || v.Kind != ':' || v.Int == 0 {
@@ -71,7 +92,13 @@ func (t *TCPExec) Held() []int {
 
 // Check runs the structural self-check.
 func (t *TCPExec) Check() []string {
+	if t.Hung {
+		return nil
+	}
 	v, err := t.C.Do("verif.check")
+	if err != nil {
+		t.noteTimeout(err)
+	}
 	if err != nil || v.Kind != '$' {
 		return nil
 	}
@@ -82,7 +109,13 @@ func (t *TCPExec) Check() []string {
 
 // Dump returns the keyspace.
 func (t *TCPExec) Dump() []model.Entry {
+	if t.Hung {
+		return nil
+	}
 	v, err := t.C.Do("verif.dump")
+	if err != nil {
+		t.noteTimeout(err)
+	}
 	if err != nil || v.Kind != '$' {
 		return nil
 	}
@@ -99,6 +132,9 @@ func (t *TCPExec) Dump() []model.Entry {
 
 // Reset deletes every key.
 func (t *TCPExec) Reset() {
+	if t.Hung {
+		return
+	}
 	v, err := t.C.Do("KEYS", "*")
 	if err != nil {
 		return
